@@ -249,7 +249,17 @@ pub fn check_c01(sc: &H1Scenario, out: &H1Out) -> Vec<Violation> {
                 }
             } else {
                 let last_is_4xx = finals.last().map(|r| (400..500).contains(&r.status)).unwrap_or(false);
-                if !last_is_4xx || p.tail != Tail::Clean || finals.len() != at + 1 {
+                // the error response was handed to a buffering transport whose flush was Pending,
+                // and the connection was dropped without waiting for the flush
+                let lost = String::from_utf8_lossy(&co.lost_staged).to_string();
+                let lost_4xx = lost.contains("HTTP/1.1 4") || lost.contains("HTTP/1.0 4");
+                if !last_is_4xx && lost_4xx && closed {
+                    vs.push(Violation::new(
+                        "C01.reject-4xx-close",
+                        "4xx-dropped-with-unflushed-transport-buffer",
+                        format!("malformed {:?} at position {}: the 4xx was written into the transport ({} bytes staged) but the connection was dropped while poll_flush was still Pending, so it never reached the peer", class, at, co.lost_staged.len()),
+                    ));
+                } else if !last_is_4xx || p.tail != Tail::Clean || finals.len() != at + 1 {
                     vs.push(Violation::new(
                         "C01.reject-4xx-close",
                         format!("no-4xx-{:?}", class),
@@ -505,9 +515,14 @@ pub fn check_c02(sc: &H1Scenario, out: &H1Out) -> Vec<Violation> {
                     })
                     .unwrap_or(false)
             });
+        let lost_unflushed = !co.lost_staged.is_empty() && closed;
+        // keep-alive timer armed when the last response was *encoded*; it expires while the socket
+        // is still accepting that response slowly and, with no disconnect timeout, the connection
+        // is dropped with the rest of the write buffer
+        let ka_drop = matches!(sc.cfg.keep_alive, Ka::TimeoutMs(_)) && sc.cfg.disc_timeout_ms == 0 && co.shutdown_called.is_none() && co.dropped.is_some() && co.result.as_ref().map(|r| r.0.is_ok()).unwrap_or(false) && co.seen.iter().all(|s| s.answered.is_some());
         vs.push(Violation::new(
             "C02.count-order",
-            if later_body_failed { "missing-response:buffered-responses-dropped-by-later-body-failure" } else { "missing-response" },
+            if later_body_failed { "missing-response:buffered-responses-dropped-by-later-body-failure" } else if lost_unflushed { "missing-response:dropped-with-unflushed-transport-buffer" } else if ka_drop { "missing-response:keep-alive-timer-expired-while-response-unwritten" } else { "missing-response" },
             format!("{} handlers answered and finished their bodies but only {} complete final responses were written (connection closed: {}, task done: {}, result: {:?})", expected_min, complete_finals, closed, co.task_done, co.result.as_ref().map(|r| &r.0)),
         ));
     }
